@@ -324,13 +324,22 @@ def write_evidence(pid, tier, coverage, wall, violations, assumptions, level="mo
     return ev
 
 
-VOLATILE_KEYS = ("dir", "path", "wall", "ms", "root", "tmp", "pid", "rss_kb", "rss_growth_kb", "fatal_detail")
+VOLATILE_KEYS = ("dir", "path", "wall", "ms", "root", "tmp", "pid", "rss_kb", "rss_growth_kb", "fatal_detail", "errtext", "panic_text", "stack")
+
+
+def _strip_volatile(x, volatile):
+    if isinstance(x, dict):
+        return {k: _strip_volatile(v, volatile) for k, v in x.items() if k not in volatile}
+    if isinstance(x, list):
+        return [_strip_volatile(v, volatile) for v in x]
+    return x
 
 
 def event_key(e, volatile=VOLATILE_KEYS):
-    if isinstance(e, dict):
-        return json.dumps({k: v for k, v in sorted(e.items()) if k not in volatile}, sort_keys=True, default=str)
-    return json.dumps(e, sort_keys=True, default=str)
+    """identity of an event for reproduction: everything except fields that legitimately differ between two runs
+    (paths, times, pids, memory readings, and the text of crash dumps, which contains thread ids and addresses) -
+    at any depth"""
+    return json.dumps(_strip_volatile(e, volatile), sort_keys=True, default=str)
 
 
 class Ctx:
